@@ -20,10 +20,10 @@ NULL = -1
 
 # ----------------------------------------------------------------------------- generators
 
-def gen_diploid(rng, n=None, trees=None, mpe=None, extra=0.4, gaps=0.15):
+def gen_diploid(rng, n=None, trees=None, mpe=None, extra=0.4, gaps=0.15, big=False):
     """A diploid msprime tree sequence (every sample node belongs to a 2-node individual at time 0)."""
-    n = int(rng.integers(2, 7)) if n is None else n
-    trees = int(rng.choice([1, 2, 3, 5, 8, 15, 30])) if trees is None else trees
+    n = int(rng.integers(2, 13 if big else 7)) if n is None else n
+    trees = int(rng.choice([1, 2, 3, 5, 8, 15, 30] + ([60] if big else []))) if trees is None else trees
     mpe = float(rng.choice([1, 3, 8])) if mpe is None else mpe
     ts, info = gen.sim_ts(rng, n=n, trees=trees, muts_per_edge=mpe, ploidy=2)
     fired = []
@@ -321,7 +321,7 @@ def run_fit(ts, mu, *, singletons_phased=False, ep_iterations=3, max_shape=1000.
     import tsdate.variational as V
     from . import dating
     dating.quiet()
-    rec = dict(ok=False, stage="init", exc=None, msg="", fit=None, pre=None, realloc=[])
+    rec = dict(ok=False, stage="init", exc=None, msg="", fit=None, pre=None, realloc=[], where=[])
     try:
         fit = V.ExpectationPropagation(ts, mutation_rate=mu, singletons_phased=singletons_phased)
     except BaseException as e:  # noqa: BLE001
@@ -358,10 +358,22 @@ def run_fit(ts, mu, *, singletons_phased=False, ep_iterations=3, max_shape=1000.
     except BaseException as e:  # noqa: BLE001
         if isinstance(e, (KeyboardInterrupt, MemoryError)):
             raise
-        rec.update(exc=type(e).__name__, msg=str(e)[:200])
+        import traceback
+        rec.update(exc=type(e).__name__, msg=str(e)[:200],
+                   where=[f.name for f in traceback.extract_tb(e.__traceback__)])
     finally:
         V.reallocate_unphased = orig_re
     return rec
+
+
+def raised_in_tail(rec):
+    """The exception of a failed run_fit came out of the tail of infer() itself (its own statements or
+    reallocate_unphased), not out of EP or the rest of rescale()."""
+    if rec["ok"] or rec["stage"] != "infer" or rec["pre"] is None:
+        return False
+    if rec["realloc"] and rec["realloc"][-1]["out"] is None:
+        return True
+    return bool(rec["where"]) and rec["where"][-1] == "infer"
 
 
 def tail_case(rec, rescale_intervals, rescale_iterations, rescale_segsites):
